@@ -82,6 +82,13 @@ CLAIMED = {
         'doubles are printed with digits10 precision by default. The accepted language is not enumerated by execution.',
    note='Trusted: C++ standard exception specification of std::sto*; recogniser-accepted text is convertible. Restructuring the recognisers (e.g. to a regex) makes anchors vanish: exit 2, not a verdict.',
    ref='DESIGN.md section 4, C16'),
+ 'C17': dict(
+   technique='static analysis: stem-linked agreement of flag writer / getter / emitter, guard-set and argument agreement between sibling emitters (interface vs implementation) from CFG branch facts',
+   text='For each of the 24 helper flags the analyser branch (MathML element, AST type), the AnalyserModel getter and the generator emitter agree by stem and guard; for every family with an interface and an implementation form both emitters '
+        'run under the same model predicates with the same profile arguments; count placeholders are replaced by the model counts and info tables iterate full lists; both emitters return {} for missing/invalid models. '
+        'Necessary conditions of "declared exactly when defined" and "helpers emitted exactly when used"; generated code is not compiled.',
+   note='Trusted: clang AST/CFG; relies on the naming convention that ties need<X>Function, mNeed<X>Function, <x>FunctionString, Type::<X> and MathML <x> together (a rename makes anchors vanish: exit 2).',
+   ref='DESIGN.md section 4, C17'),
  'C18': dict(
    technique='static analysis: type-level counting argument on the memo key, null-state dataflow, visited-set rule on the recursive search',
    text='The memo of AnalyserModel::areEquivalentVariables must be keyed injectively by both addresses (pair/tuple key or >=128 bits), decided from the field type and the dataflow of the key expression; '
